@@ -35,7 +35,7 @@ ApiId(a, id, q, h) == [A0 EXCEPT !.api = a, !.tid = id, !.qos = q, !.h = h, !.pl
 Plain(a) == [A0 EXCEPT !.api = a]
 
 Eff(st, n, q) == IF \E x \in st.subs : Matches(x.tl, Levels(n)) THEN q ELSE -1
-Pub(st, n, q, k) == [topic |-> n, tl |-> Levels(n), qos |-> q, eff |-> Eff(st, n, q), mid |-> 0, pl |-> "s:b" \o ToString(k) \o "-" \o n]
+Pub(st, n, q, k) == [topic |-> n, tl |-> Levels(n), short |-> IsShort(n), qos |-> q, eff |-> Eff(st, n, q), mid |-> 0, pl |-> "s:b" \o ToString(k) \o "-" \o n]
 BPub(st, ps) == [A0 EXCEPT !.t = "BPub", !.pubs = ps, !.n = 80]
 
 Calls(st) ==
